@@ -44,7 +44,7 @@ Next == /\ ~done /\ done' = TRUE /\ i' = i
         /\ LET m == Data.models[i]  db == DBOf(m)  ma == MergeAll(db, m.exclude) IN
            PrintT(ToJson([k |-> i,
                           introns |-> [x \in 1..Len(Introns_Decl(db, T_gene, T_exon, m.numeric, m.mergeA)) |-> FView(Introns_Decl(db, T_gene, T_exon, m.numeric, m.mergeA)[x])],
-                          splice |-> [x \in 1..Len(Splice_Decl(db, T_gene, T_exon)) |-> FView(Splice_Decl(db, T_gene, T_exon)[x])],
+                          splice |-> [x \in 1..Len(Splice_Decl(db, T_gene, T_exon, m.numeric)) |-> FView(Splice_Decl(db, T_gene, T_exon, m.numeric)[x])],
                           bp |-> {[id |-> db.feats[x].id, plain |-> ChildrenBp_Decl(KidsAnyLevel(db, db.feats[x].id, T_exon), FALSE),
                                    merged |-> ChildrenBp_Decl(KidsAnyLevel(db, db.feats[x].id, T_exon), TRUE),
                                    union |-> UnionSize(KidsAnyLevel(db, db.feats[x].id, T_exon))] : x \in 1..Len(db.feats)},
